@@ -1200,6 +1200,15 @@ class KmipEngine(object):
         else:
             return False
 
+    @staticmethod
+    def _describe_date(value):
+        # Dates come from the client; one that the platform cannot convert
+        # must not break the (debug) message it is quoted in.
+        try:
+            return time.asctime(time.gmtime(value))
+        except (OverflowError, OSError, ValueError):
+            return str(value)
+
     def _is_valid_date(self, date_type, value, start, end):
         date_type = date_type.value.lower()
 
@@ -1210,9 +1219,9 @@ class KmipEngine(object):
                         "Failed match: object's {} ({}) is less than "
                         "the starting {} ({}).".format(
                             date_type,
-                            time.asctime(time.gmtime(value)),
+                            self._describe_date(value),
                             date_type,
-                            time.asctime(time.gmtime(start))
+                            self._describe_date(start)
                         )
                     )
                     return False
@@ -1221,9 +1230,9 @@ class KmipEngine(object):
                         "Failed match: object's {} ({}) is greater than "
                         "the ending {} ({}).".format(
                             date_type,
-                            time.asctime(time.gmtime(value)),
+                            self._describe_date(value),
                             date_type,
-                            time.asctime(time.gmtime(end))
+                            self._describe_date(end)
                         )
                     )
                     return False
@@ -1233,9 +1242,9 @@ class KmipEngine(object):
                         "Failed match: object's {} ({}) does not match "
                         "the specified {} ({}).".format(
                             date_type,
-                            time.asctime(time.gmtime(value)),
+                            self._describe_date(value),
                             date_type,
-                            time.asctime(time.gmtime(start))
+                            self._describe_date(start)
                         )
                     )
                     return False
